@@ -15,7 +15,9 @@ import (
 	"os"
 	"sort"
 	"strings"
+	"sync/atomic"
 	"testing"
+	"time"
 	"unicode"
 
 	"github.com/junegunn/fzf/src/algo"
@@ -135,6 +137,32 @@ type c04Env struct {
 	matchers map[[3]int]*Matcher
 	perms    [6][][]int
 	ref      []c04Ref
+	cur      atomic.Pointer[c04Case] // case being executed, for the watchdog
+	progress atomic.Int64
+}
+
+// watchdog: a scan or a Get that does not return within stuckS seconds is reported with the case that
+// was running (the worker then exits; the rest of its share is recorded as not explored)
+func (e *c04Env) watchdog(stuckS int) {
+	go func() {
+		last, since := int64(-1), time.Now()
+		for {
+			time.Sleep(time.Second)
+			p := e.progress.Load()
+			if p != last {
+				last, since = p, time.Now()
+				continue
+			}
+			c := e.cur.Load()
+			if c == nil || time.Since(since) < time.Duration(stuckS)*time.Second {
+				continue
+			}
+			e.r.Violation("hang", e.detail(c, map[string]any{"stuck_for_s": stuckS}))
+			e.r.Cap("worker stopped after a hang")
+			e.r.Finish()
+			os.Exit(0)
+		}
+	}()
 }
 
 func c04B(b bool) int {
@@ -387,6 +415,8 @@ func (e *c04Env) probe(mg *Merger, order []int, stride, limit int, cmpPoints boo
 
 func (e *c04Env) check(c *c04Case) {
 	r := e.r
+	e.cur.Store(c)
+	e.progress.Add(1)
 	sortCriteria = e.crits[c.ci]
 	fwB, wpB := c04Derive(e.crits[c.ci])
 	pat := e.pats[c04B(fwB)][c04B(wpB)][c.q]
@@ -604,6 +634,7 @@ func TestVerif_C04_short(t *testing.T) {
 	}
 	defer r.Finish()
 	e := c04NewEnv(r)
+	e.watchdog(30)
 	if d := r.Replay(); d != nil {
 		c04Replay(e, d)
 		return
@@ -672,6 +703,7 @@ func TestVerif_C04_long(t *testing.T) {
 	}
 	defer r.Finish()
 	e := c04NewEnv(r)
+	e.watchdog(30)
 	if d := r.Replay(); d != nil {
 		c04Replay(e, d)
 		return
